@@ -387,6 +387,19 @@ func (fv *FnV) libCall(st *State, callee *ssa.Function, cc *ssa.CallCommon, pos 
 			fv.assume(st, "(ok!str "+n+")")
 			return str(n), nil
 		}
+	case "unicode/utf8.DecodeRuneInString":
+		// assumed library contract: 0 <= width <= min(4, len); width == 0 iff the string is empty (then r == RuneError);
+		// an invalid encoding yields (RuneError, 1); RuneError with width 3 is the encoded replacement character
+		sv := arg(0)
+		r := fv.c.Fresh("rune", bvSort(32))
+		w := fv.c.Fresh("width", sBV64)
+		ln := "(str!len " + sv + ")"
+		z := bvLit(0, 64)
+		fv.assume(st, and("(bvsle "+z+" "+w+")", "(bvsle "+w+" "+bvLit(4, 64)+")", "(bvsle "+w+" "+ln+")",
+			eq(eq(w, z), eq(ln, z)), implies(eq(w, z), eq(r, bvLit(0xFFFD, 32))),
+			implies(not(eq(r, bvLit(0xFFFD, 32))), and("(bvsle "+bvLit(0, 32)+" "+r+")", "(bvsle "+r+" "+bvLit(0x10FFFF, 32)+")")),
+			implies(and("(bvsle "+bvLit(0, 32)+" "+r+")", "(bvslt "+r+" "+bvLit(0x80, 32)+")"), eq(w, bvLit(1, 64)))))
+		return &SV{tup: []SV{{v: Val{r, bvSort(32)}, typ: types.Typ[types.Rune]}, {v: Val{w, sBV64}, typ: types.Typ[types.Int]}}, typ: sig.Results()}, nil
 	case "fmt.Errorf", "errors.New":
 		e := fv.nonNilError(st, "new")
 		return &SV{v: Val{e, sAny}, typ: sig.Results().At(0).Type()}, nil
@@ -646,7 +659,17 @@ func (fv *FnV) doAppend(st *State, cc *ssa.CallCommon, pos token.Pos) (*SV, erro
 		}
 	}
 	if fv.k != nil && single != "" {
-		for _, cl := range fv.k.CallAsserts["append"] {
+		site := fv.siteText(pos, "call")
+		var cls []*Clause
+		for key, list := range fv.k.CallAsserts {
+			if key == "append" || (strings.HasPrefix(key, "append:") && strings.Contains(site, strings.TrimPrefix(key, "append:"))) {
+				cls = append(cls, list...)
+			}
+			if li := fv.innermostLoop(); li != nil && key == fmt.Sprintf("append@loop%d", li.ordinal) {
+				cls = append(cls, list...)
+			}
+		}
+		for _, cl := range cls {
 			env := fv.contractEnv(st, fv.entry, nil)
 			if li := fv.innermostLoop(); li != nil {
 				env.loop = li
